@@ -210,6 +210,11 @@ pub struct FullRun {
     pub fired: BTreeMap<&'static str, u64>,
     pub all_done: bool,
     pub device_incarnations: u32,
+    /// CASE session pairs (device 0 <-> a controller, matched by their session ids and
+    /// addresses) whose directional keys differed at some probe: (time, device session id,
+    /// controller node, controller session id)
+    pub key_mismatches: Vec<(u64, u32, usize, u32)>,
+    pub session_pairs_compared: u64,
 }
 
 pub fn drive_full(seed: u64, cfg: FullCfg) -> FullRun {
@@ -316,6 +321,8 @@ pub fn drive_full_with(seed: u64, cfg: FullCfg, step_hook: &mut dyn FnMut(u64, &
     cancels.sort();
     cancels.reverse();
     let mut restart_at: Option<u64> = None;
+    let mut key_mismatches: Vec<(u64, u32, usize, u32)> = Vec::new();
+    let mut session_pairs_compared = 0u64;
     let mut dev_inc = 1u32;
     let mut stop;
     let mut all_done = false;
@@ -376,6 +383,41 @@ pub fn drive_full_with(seed: u64, cfg: FullCfg, step_hook: &mut dyn FnMut(u64, &
             }
             let states: Vec<Option<DevState>> = dstates.iter().map(|s| s.borrow().clone()).collect();
             step_hook(kernel::now(), &states);
+            // Both ends of every established CASE session hold the same keys
+            if let Some(Some(dev)) = states.first() {
+                use rs_matter::transport::session::SessionMode;
+                for node in cfg.n_devices..n_nodes {
+                    if !exec.is_up(node) {
+                        continue;
+                    }
+                    exec.probe(node);
+                    let snap = snaps[node].borrow();
+                    let Some(x) = snap.as_ref() else {
+                        continue;
+                    };
+                    for ds in dev.snap.sessions.iter().filter(|s| matches!(s.mode, SessionMode::Case { .. }) && !s.reserved && !s.expired) {
+                        if crate::net::addr_node(&ds.peer_addr) != Some(node) {
+                            continue;
+                        }
+                        for xs in x.sessions.iter().filter(|s| matches!(s.mode, SessionMode::Case { .. }) && !s.reserved && !s.expired) {
+                            if ds.local_sess_id == xs.peer_sess_id
+                                && ds.peer_sess_id == xs.local_sess_id
+                                && crate::net::addr_node(&xs.peer_addr) == Some(0)
+                            {
+                                session_pairs_compared += 1;
+                                if (ds.enc_key != xs.dec_key || ds.dec_key != xs.enc_key)
+                                    && !key_mismatches.iter().any(|m: &(u64, u32, usize, u32)| m.1 == ds.id && m.2 == node && m.3 == xs.id)
+                                {
+                                    key_mismatches.push((kernel::now(), ds.id, node, xs.id));
+                                    if std::env::var_os("VERIF_DUMP").is_some() {
+                                        eprintln!("MISMATCH t={} dev_inc={} DEV {:?}\n   CTL {:?}", kernel::now(), dev_inc, ds, xs);
+                                    }
+                                }
+                            }
+                        }
+                    }
+                }
+            }
         }
         // Crash requested by the KV store (crash at an op): kill right after the poll returned
         if !exec.is_up(0) && kvs[0].crashed() && restart_at.is_none() {
@@ -442,5 +484,7 @@ pub fn drive_full_with(seed: u64, cfg: FullCfg, step_hook: &mut dyn FnMut(u64, &
         fired,
         all_done,
         device_incarnations: dev_inc,
+        key_mismatches,
+        session_pairs_compared,
     }
 }
